@@ -194,6 +194,10 @@ pub struct Gen {
     pub letters: Vec<char>,
     pub offset_counter: u64,
     pub extra_tables: u8,
+    /// the configuration the run starts with
+    pub tables_initial: u8,
+    /// one more than the highest extra table that has ever had a row put
+    pub tables_hi: u8,
     pub clock: u64,
     pub used_all_ff: bool,
     pub used_all_00: bool,
@@ -292,6 +296,8 @@ impl Gen {
             letters: vec!['e', 'p', 't', 'd', 'a', 'x', 'T'],
             offset_counter: 8,
             extra_tables,
+            tables_initial: extra_tables,
+            tables_hi: 0,
             clock: T0 + 100,
             used_all_ff: false,
             used_all_00: false,
@@ -1049,7 +1055,16 @@ impl Gen {
                         ops.push(Op::Reopen(ReopenKind::Drop));
                     }
                 }
-                "reopen_close" => ops.push(Op::Reopen(ReopenKind::Close)),
+                "reopen_close" => {
+                    if self.p.mode == Mode::Seq && self.p.max_extra > 0 && self.rng.chance(1, 3) {
+                        // the store comes back with another set of extra tables
+                        let n = self.rng.below(self.p.max_extra as u64 + 1) as u8;
+                        self.extra_tables = n;
+                        ops.push(Op::Tables(n));
+                    } else {
+                        ops.push(Op::Reopen(ReopenKind::Close));
+                    }
+                }
                 "reopen_copy" => ops.push(Op::Reopen(ReopenKind::Copy)),
                 "rebuild" => {
                     if self.rng.chance(1, 5) {
@@ -1059,6 +1074,12 @@ impl Gen {
                         if self.p.mode == Mode::Seq && self.rng.chance(1, 6) {
                             // the rebuild itself runs out of room
                             ops.push(Op::Fsize(*self.rng.pick(&[0u8, 2, 4, 5, 6, 7, 4, 5])));
+                        }
+                        if self.extra_tables < self.tables_hi {
+                            // (a rebuild carries over the tables it was opened with; rows of a table
+                            // that is closed at that moment are nobody's business: not generated)
+                            self.extra_tables = self.tables_hi;
+                            ops.push(Op::Tables(self.tables_hi));
                         }
                         ops.push(Op::Rebuild);
                     }
@@ -1071,6 +1092,7 @@ impl Gen {
                         let k: Vec<u8> = (0..kl).map(|_| self.rng.below(256) as u8).collect();
                         let v: Vec<u8> = (0..vl).map(|_| self.rng.below(256) as u8).collect();
                         let _ = self.model.extra.entry(t).or_default().insert(k.clone(), v.clone());
+                        self.tables_hi = self.tables_hi.max(t + 1);
                         ops.push(Op::ExtraPut(t, k, v));
                     }
                 }
@@ -1313,7 +1335,7 @@ impl Gen {
                 mode: self.p.mode,
                 seed,
                 blocker,
-                extra_tables: self.extra_tables,
+                extra_tables: self.tables_initial,
                 obs_level: self.p.obs_level,
                 drain: false,
             },
